@@ -43,7 +43,11 @@ try:
     res["existing_tests_with_change"] = "pass" if rct == 0 else ("fail: " + "; ".join(re.findall(r"--- FAIL: (\w+)", outt))[:300] + (" (timeout)" if rct == 124 else ""))
 finally:
     run(f"git -C /repo worktree remove --force {wt}"); shutil.rmtree(wt, ignore_errors=True)
-# detection by the checks
+# detection by the checks; exclusive lock: no other check may build from /repo while the seed is applied
+import fcntl
+lockf = open("/dev/shm/verif-repo.lock", "a+")
+fcntl.flock(lockf, fcntl.LOCK_EX)
+env["VERIF_NOLOCK"] = "1"
 assert run("git -C /repo status --porcelain")[1].strip() == "", "/repo is not clean"
 rc, out = run(f"git -C /repo apply {seed}/patch.diff")
 assert rc == 0, out
@@ -57,5 +61,6 @@ try:
 finally:
     run("git -C /repo checkout -- .")
     assert run("git -C /repo status --porcelain")[1].strip() == ""
+fcntl.flock(lockf, fcntl.LOCK_UN)
 json.dump(res, open(os.path.join(seed, "eval.json"), "w"), indent=1)
 print(json.dumps({k: v for k, v in res.items() if k != "demo_output_with_change"}, indent=1))
